@@ -76,6 +76,30 @@ func check(s *codecx.Schema, orig protoreflect.Message, c docCase) (fails []vf.F
 		if cls, d := q.Diff(orig, got, string(md.Name())); cls != "" {
 			return []vf.Failure{vf.Failf("spelling|diff|"+c.What+"|"+cls, "spelling %s changes the message: %s\ndocument: %s", c.What, d, clip(c.Doc))}
 		}
+		// "produce the same message as the canonical spelling": the two decodes are
+		// compared literally (presence included; decimals and Any by value)
+		if c.Canon != "" {
+			want := dynamicpb.NewMessage(md)
+			if err := cdc.JSONToProto([]byte(c.Canon), want); err == nil {
+				strict := &j5ref.Equiv{Types: s.Resolver(), Strict: true}
+				// a j5 Any keeps its payload as the JSON it was given: payloads are
+				// compared as the messages they decode to
+				strict.DecodeJSON = func(typeName string, data []byte) (protoreflect.Message, error) {
+					mt, err := s.Resolver().FindMessageByName(protoreflect.FullName(typeName))
+					if err != nil {
+						return nil, err
+					}
+					inner := mt.New()
+					if err := cdc.JSONToProto(data, inner); err != nil {
+						return nil, err
+					}
+					return inner, nil
+				}
+				if cls, d := strict.Diff(want, got, string(md.Name())); cls != "" {
+					return []vf.Failure{vf.Failf("spelling|differs-from-canonical|"+c.What+"|"+cls, "spelling %s decodes to a different message than the canonical spelling: %s\ndocument: %s\ncanonical: %s", c.What, d, clip(c.Doc), clip(c.Canon))}
+				}
+			}
+		}
 	case "fault":
 		got := dynamicpb.NewMessage(md)
 		var err error
@@ -645,7 +669,7 @@ func runSpelling(t *testing.T, lane string) {
 			if doc != string(v.Bytes()) {
 				applied = append(applied, "whitespace")
 			}
-			c := docCase{Case: s.Case(msg, source), Lane: "spelling", Doc: doc, What: strings.Join(applied, "+")}
+			c := docCase{Case: s.Case(msg, source), Lane: "spelling", Doc: doc, Canon: string(tree.Bytes()), What: strings.Join(applied, "+")}
 			cls := []string{}
 			for _, a := range applied {
 				cls = append(cls, "var:"+a)
